@@ -27,7 +27,7 @@ LEVEL = "proof"
 TRUSTED_BASE = [
     "Lean 4.33 kernel",
     "hand-written model GraphiqModel/Model/StabTableau.lean (canonical_form, inverse_circuit, inner_product) tied to stabilizer.py/metric.py by this correspondence run",
-    "stabilizer inner-product formula |<a|b>|^2 = 0 (if P in A, -P in B) or 2^-(n-dim(A∩B)) (textbook; the Lean theorems prove inner_product = this group-level value AND = tr(rho_a rho_b) (fidelity_is_state_overlap) unconditionally for all n; only tr(rho_a rho_b) = |<a|b>|^2 for a rank-one projector is left to the textbook), cross-checked against dense matrices for n<=5 on every run",
+    "stabilizer inner-product formula |<a|b>|^2 = 0 (if P in A, -P in B) or 2^-(n-dim(A∩B)) (textbook; the Lean theorems prove inner_product = this group-level value AND = tr(rho_a rho_b) (fidelity_is_state_overlap) unconditionally for all n; and tr(rho_a rho_b) = |<a|b>|^2 with the rank-one forms rho = |psi><psi| is proved too: fidelity_is_squared_inner_product, independently C07.stabilizer_state_overlap; nothing of the formula is left to the textbook), cross-checked against dense matrices for n<=5 on every run",
     "harness, line protocol, independent Python GF(2) elimination",
 ]
 ASSUMPTIONS = ["inputs are valid Clifford tableaux of pure states"]
